@@ -165,6 +165,35 @@ func genC08(rc *RunCtx) (*C1, bool) {
 		sc.Chunks = nil
 		sc.Endless = t.Choose(3) == 0 // the flood never ends: the client has to stop reading by itself
 		off := 0
+		if keep == 0 && t.Chance(1, 12) {
+			// the flood begins with something that is a well-formed frame - of another function, from somebody else's
+			// conversation (other transaction id / unit id): nothing a client may take for the reply to this request
+			other := []byte{1, 2, 3, 4}[t.Choose(4)]
+			if other == sc.Req.FC {
+				other = other%4 + 1
+			}
+			hdr := 9
+			if sc.Kind != KTCP {
+				hdr = 5
+			}
+			b := 1 + t.Choose(40)
+			if need := sc.LibReq.ExpectedResponseLength() - hdr; b < need {
+				b = need
+			}
+			if b <= 250 {
+				pdu := append([]byte{other, byte(b)}, buf[hdr:hdr+b]...)
+				var fr []byte
+				if sc.Kind == KTCP {
+					fr = FrameTCP(sc.TID^0x5a5a, sc.Unit^0x21, pdu)
+				} else {
+					fr = FrameRTU(sc.Unit^0x21, pdu)
+				}
+				copy(buf, fr)
+				sc.Chunks = append(sc.Chunks, Chunk{N: len(fr), Gap: gapOf(t)})
+				off = len(fr)
+				rc.Probe("flood_starts_with_a_frame_of_another_conversation")
+			}
+		}
 		if keep > 0 && t.Choose(3) == 0 {
 			// the first k bytes of the valid reply arrive on their own (k may cover a whole header), then the flood
 			h := 1 + t.Choose(min(keep, 14))
@@ -176,7 +205,7 @@ func genC08(rc *RunCtx) (*C1, bool) {
 			}
 			sc.Chunks = append(sc.Chunks, Chunk{N: h, Gap: gapOf(t)})
 			off = h
-		} else if t.Choose(3) == 0 {
+		} else if off == 0 && t.Choose(3) == 0 {
 			// a short head first (shorter than any reply), then the rest in large pieces
 			h := 1 + t.Choose(4)
 			sc.Chunks = append(sc.Chunks, Chunk{N: h, Gap: gapOf(t)})
